@@ -1189,6 +1189,33 @@ def corpus_facet_forms():
     return out
 
 
+def oracle_corpus(chk):
+    """Every facet/vertex form of the shared corpus (mixed, blocked, Piola-mapped, quadrature elements, cell-size
+    quantities, several rules) against the generic oracle (harness/oracle.py) for EVERY local entity index
+    (pair) — the forms the closures of c02_cases cannot express."""
+    from .. import cjit, numeric
+    ents = corpus_facet_forms()
+    if chk.tier == "quick":
+        keep = ("int_facet_mixed", "int_facet_cellsize_tri", "int_facet_cellsize_tet", "int_facet_tri", "int_facet_tet",
+                "ext_facet_tet", "vertex_tri", "one_sided_dS", "prism", "geometry_tri", "int_facet_two_rules_a", "int_facet_hex")
+        ents = [e for e in ents if e.name in keep]
+
+    def work(i):
+        return numeric.compare_entry(ents[i], {}, seed=chk.seed * 31 + i, reps=1, all_entities=True,
+                                     kinds=("exterior_facet", "interior_facet", "vertex"))
+    res = cjit.parallel_map(work, list(range(len(ents))))
+    for i, (st, r) in sorted(res.items()):
+        if st != "ok" or "error" in r:
+            chk.notes.setdefault("oracle_corpus_errors", []).append(f"{ents[i].name}: {str(r)[:200]}")
+            continue
+        chk.case("oracle_corpus", r["name"], n=max(1, r["compared"]),
+                 sample={"entry": r["name"], "compared": r["compared"], "max_rel": r["maxrel"]} if i < 2 else None)
+        for b in r["bad"]:
+            chk.violation(f"c02:oracle:{r['name']}:{b.get('integral_type', '?')}",
+                          f"{b.get('integral_type')} kernel of {r['name']} differs from the oracle at local entity {b.get('entity')} (rel {b.get('relerr')})",
+                          {"entry": r["name"], **b})
+
+
 def run(chk):
     rng = np.random.default_rng(1000 + chk.seed)
     random.seed(chk.seed)
@@ -1263,5 +1290,6 @@ def run(chk):
     chk.notes["oracle_configs_per_cell"] = hist
     chk.notes["oracle_worst_rel_err"] = {k: float(f"{v:.3e}") for k, v in worst.items()}
     probe_rfev(chk, rng)
+    oracle_corpus(chk)
     if chk.tier != "quick":
         chk.leanchecker(["FfcxProofs.Lemmas.Geom", "FfcxProofs.C02"])
